@@ -1058,10 +1058,12 @@ struct VarInfo {
 pub struct GenOpts {
     pub max_fns: usize,
     pub budget: i32,
+    /// force the register-pressure shape knob and make `main` call the pressure function (C08)
+    pub force_pressure: bool,
 }
 impl Default for GenOpts {
     fn default() -> Self {
-        GenOpts { max_fns: 6, budget: 260 }
+        GenOpts { max_fns: 6, budget: 260, force_pressure: false }
     }
 }
 pub struct Gen<'a> {
@@ -1099,6 +1101,8 @@ impl<'a> Gen<'a> {
         }
         // shape knobs
         let knob = g.t.weighted(&[50, 12, 12, 10, 10]);
+        let knob = if opts.force_pressure { 2 } else { knob };
+        let mut pressure_ix = None;
         let nf = g.t.below(opts.max_fns);
         for _ in 0..nf {
             g.gen_fn(false);
@@ -1110,6 +1114,7 @@ impl<'a> Gen<'a> {
             1 => g.shape.push("near-duplicates"),
             2 => {
                 g.pressure_fn();
+                pressure_ix = Some(g.fns.len() - 1);
                 g.shape.push("register-pressure");
             }
             3 => {
@@ -1124,6 +1129,11 @@ impl<'a> Gen<'a> {
         }
         g.budget = g.budget.max(60);
         g.gen_fn(true);
+        if let (true, Some(px)) = (opts.force_pressure, pressure_ix) {
+            let main = g.fns.last_mut().unwrap();
+            main.body.stmts.insert(0, Stmt::Let { name: "zzp".into(), mutable: false, ty: Ty::U64, init: Expr::Call(px, vec![Expr::Var("a".into()), Expr::Var("b".into())]) });
+            main.body.stmts.insert(1, Stmt::Log(Expr::Var("zzp".into())));
+        }
         Program { structs: g.structs, enums: g.enums, fns: g.fns, shape: g.shape }
     }
 
